@@ -10,7 +10,8 @@ THEOREMS = ["c12_proxy_call_is_the_raw_operation", "c12_histories_agree", "c12_h
 THEOREMS_T = ["c12_translated_exec_proxy_sends_the_raw_request", "c12_translated_migrate_proxy_sends_the_raw_request",
               "c12_translated_downcast_error", "c12_translated_generated_instantiate_options",
               "c12_translated_generated_instantiate_call", "c12_translated_generated_instantiate2_call",
-              "c12_translated_generated_exec_path", "c12_translated_generated_query_sudo_migrate"]
+              "c12_translated_generated_exec_path", "c12_translated_generated_query_sudo_migrate",
+              "c12_translated_generated_interface_methods_same"]
 
 
 def build(run, thorough):
